@@ -14,6 +14,11 @@ Job alphabet J (JSON descriptors, see build_jobs()):
           argument (common.default_instead_undo, huawei.bgp.undo_commit, cisco.misc.ssh_key) and whose configurations
           contain rows unknown to the rulebook (popped by apply_diff_rb), some with acl == filter_acl (one shared object).
 
+  e2e     two devices of one fabric served by one worker (mc/e2e.Fabric: one Loader, one args object, ONE stdin dict, a
+          configuration directory with per-device <host>.cfg and <host>.acl, `annet patch --filter-acl DIR`): the job is
+          annet.api._patch_worker for one of the devices; the fabric object lives as long as the process, like the
+          arguments of a pool worker.
+
 Exploration.  The TEMPLATE is a process that has imported annet and set the three connectors and has run nothing (its
 lru caches are empty, no provider/registry instance exists; asserted and reported).  A NODE of the tree is a history h;
 it is materialised by forking the template and running the jobs of h in order ("replay").  Every EDGE (h, j) is run
@@ -339,6 +344,8 @@ def build_jobs():
         tree = ROS_TREE if src == "routeros" else corpus[PAIRS[src][0]]["new"]
         jobs.append({"kind": "order", "vendor": label, "model": model, "sample": "<hand-written>" if src == "routeros" else PAIRS[src][0],
                      "new": tree, "id": "order/%s" % label.replace(" ", "-"), "jk": "order"})
+    for host in ("dev-a", "dev-b"):
+        jobs.append({"kind": "e2e", "vendor": "huawei", "model": "Huawei", "device": host, "id": "e2e/patch/%s" % host, "jk": "e2e-patch"})
     for sj in SYNTH_JOBS:
         vendor, text = SYNTH[sj["text"]]
         j = {"kind": "synth", "vendor": vendor, "model": HW_MODELS[vendor], "rb_text": text, "old": sj["old"], "new": sj["new"],
@@ -466,8 +473,40 @@ def _to_plain(forest):
     return {row: _to_plain(ch) for row, ch in forest}
 
 
+E2E_FABRIC = [
+    {"hostname": "dev-a", "model": "Huawei",
+     "old": [["snmp-agent community read x", []], ["ntp-service unicast-server 1.1.1.1", []], ["sysname a", []]],
+     "gens": [([["sysname a", []]], False)], "filter_acl": "snmp-agent ~\n"},
+    {"hostname": "dev-b", "model": "Huawei",
+     "old": [["snmp-agent community read y", []], ["ntp-service unicast-server 2.2.2.2", []], ["sysname b", []]],
+     "gens": [([["sysname b", []]], False)], "filter_acl": "ntp-service ~\n"},
+]
+_FABRIC = []
+
+
+def run_e2e_job(job):
+    from mc import e2e
+    if not _FABRIC:
+        _FABRIC.append(e2e.Fabric(E2E_FABRIC))      # lives as long as the process, like a pool worker's arguments
+    fab = _FABRIC[0]
+    dev_id = next(i for i, d in fab.devs.items() if d.hostname == job["device"])
+    res = {"exception": None}
+    try:
+        out = fab.worker_call(dev_id)
+        res["cmd_paths"] = [[label, text] for label, text, _ in out]
+    except Exception as e:  # noqa
+        res["exception"] = "%s: %s" % (type(e).__name__, str(e)[:300])
+    s = statehash.global_fingerprint(REQUIRED_GLOBALS)
+    changed = {k: v for k, v in s.digests.items() if _TEMPLATE.get(k) != v}
+    return {"job": job["id"], "res": res, "before": {}, "after": {}, "scratch": [None, None], "warm": [], "fp": s.total(),
+            "changed": changed, "gone": [k for k in _TEMPLATE if k not in s.digests], "opaque": sorted(s.opaque),
+            "ncmds": len(res.get("cmd_paths") or [])}
+
+
 def run_job(job):
     """-> report (JSON-able).  Only annet entry points are called; the harness adds snapshots and the fingerprint."""
+    if job["kind"] == "e2e":
+        return run_e2e_job(job)
     from annet import api, deploy, patching, rulebook
     from annet.annlib.netdev.views.hardware import HardwareView
     from annet.annlib.rbparser.acl import compile_acl_text
